@@ -385,6 +385,23 @@ theorem index_maps_roundtrip (ix : IState) : (encode (mapsPV ix) >>= decode) = .
 theorem index_maps_faithful (ix ix' : IState) (h : mapsPV ix = mapsPV ix') : ix.index = ix'.index ∧ ix.rev = ix'.rev :=
   mapsPV_inj ix ix' h
 
+/-- … and so do the instances with their heads (the index-relevant part of `flow_states`: uid, flow status, per head uid,
+    position, status; `FlowState` / `FlowHead` dataclass instances whose constructors accept exactly these fields — checked
+    against the generated class table) -/
+theorem index_instances_roundtrip (ix : IState) : (encode (instsPV ix) >>= decode) = .ok (instsPV ix) :=
+  roundtrip_tree _ (instsPV_encodable ix)
+
+/-- … faithfully: equal Python values ⇒ the same instances, statuses, heads, positions and head statuses in the same order.
+    Together with `index_maps_faithful`: the restored index component equals the saved one up to the ghost field `elem`
+    (the element name at the head's position — not a Python attribute; `json_to_state` re-installs the callbacks that
+    recompute it, and C09's exactness theorem says the maps agree with that recomputation). -/
+theorem index_instances_faithful (ix ix' : IState) (h : instsPV ix = instsPV ix') : ix.insts.map instCore = ix'.insts.map instCore := by
+  simp only [instsPV, PV.dict.injEq] at h
+  exact instsPV_inj _ _ h
+
+example : instCore { uid := "m", status := .started, heads := [{ uid := "h0", pos := 3, status := .active, elem := some "E" }] } =
+    ("m", .started, [("h0", 3, .active)]) := rfl
+
 end RestoreIndex
 
 /-! ## T3, the part that is proved: `CoreVM` does not depend on what `_clean_up_state` removes — function by function
